@@ -279,9 +279,7 @@ func (p *LookupPP) Bind(r *Run)    { p.run, p.done = r, map[string]bool{} }
 func (p *LookupPP) look(when, name string) {
 	if t, ok := p.Plan[name]; ok && p.When == when && !p.done[name] {
 		p.done[name] = true
-		p.run.Log.Add("lookup", t)
-		p.run.App.GetComponentByName(t)
-		p.run.Log.Add("lookup-end", t)
+		p.run.UserLookup(t)
 	}
 }
 func (p *LookupPP) PostProcessAfterInstantiation(c any, name string) (bool, error) {
